@@ -524,7 +524,7 @@ impl Check for C05 {
     }
 }
 
-fn prime(t: &Ty, names: &[String]) -> Ty {
+pub(crate) fn prime(t: &Ty, names: &[String]) -> Ty {
     match t {
         Ty::Var(n) if names.contains(n) => Ty::Var(format!("{n}_new")),
         Ty::Opt(x) => Ty::opt(prime(x, names)),
